@@ -1,7 +1,9 @@
 (** C07 - Corrupted pages never yield data; CRC is CRC-32C in both backends.
     Statements only; every proof is an [exact] of a lemma proved in Proofs/. *)
 From E57 Require Import Base.Prelude Model.Crc Model.Device Model.PagedReader Spec.CrcSpec Spec.PageReadSpec
-  Proofs.CrcLinear Proofs.CrcDetect Proofs.CrcBurst Proofs.PagedReaderProofs.
+  Model.Prog Model.Record Model.QueueReader Model.FileBin Model.ReaderOpen
+  Proofs.CrcLinear Proofs.CrcDetect Proofs.CrcBurst Proofs.PagedReaderProofs
+  Proofs.ReaderProgSem Proofs.ReaderProgStrict Proofs.ReaderProgAlter Proofs.ReaderSessions.
 
 (** The crate's table-driven checksum is CRC-32C (Castagnoli) as defined
     bit-serially, for every byte string; with the standard check value. *)
@@ -63,6 +65,43 @@ Theorem C07_never_serves_unvalidated : forall (ps : N) (phys : list N) (d1 : dev
   snd (pr_run ops s0) = gr_run ps phys ops 0.
 Proof. exact pr_run_equiv. Qed.
 
+(** Bytes handed out by a read always come from a page whose checksum is valid. *)
+Theorem C07_served_bytes_are_validated : forall ps phys n off off' bs,
+  gr_read ps phys n off = (off', Ok bs) -> bs <> [] ->
+  page_ok ps (page_at ps phys (off / (ps - 4))) = true /\
+  bs = slice (off mod (ps - 4)) (len bs) (page_at ps phys (off / (ps - 4))).
+Proof. exact gr_read_serves_valid. Qed.
+
+(** Alteration: [phys'] is an altered image of the same length in which every
+    altered page fails its checksum ([no_collision]; the detection theorems
+    above say when that is guaranteed).  Every read operation - any program
+    over the page layer that starts with an absolute seek and stops at the
+    first failing operation, which raw iteration, blob extraction and the XML
+    read are ([strict_*]) - run after ANY earlier operations on the reader of
+    the altered file, failed ones included, either fails or returns exactly
+    what it returns on the unaltered file. *)
+Theorem C07_alteration :
+  forall ps phys phys' d1 s0 d1' s0' (B : Type) (q q' : rprog B) (A : Type) (x : N) (k : res pr_out -> rprog A),
+  pr_new ps (dev_init phys None) = (d1, Ok s0) ->
+  pr_new ps (dev_init phys' None) = (d1', Ok s0') ->
+  no_collision ps phys phys' ->
+  strict (ROp (PrSeek x) k) ->
+  (exists e, snd (rrun (ROp (PrSeek x) k) (fst (rrun q' s0'))) = Err e) \/
+  snd (rrun (ROp (PrSeek x) k) (fst (rrun q' s0'))) = snd (rrun (ROp (PrSeek x) k) (fst (rrun q s0))).
+Proof. exact alteration_reachable. Qed.
+
+(** The crate's read operations are such programs. *)
+Theorem C07_raw_iteration_is_strict : forall fuel ls fo recs proto, strict (op_raw_all fuel ls fo recs proto).
+Proof. exact strict_op_raw_all. Qed.
+Theorem C07_blob_read_is_strict : forall ls off ln, strict (op_blob ls off ln).
+Proof. exact strict_op_blob. Qed.
+Theorem C07_open_is_strict : strict open_paged.
+Proof. exact strict_open_paged. Qed.
+Theorem C07_raw_xml_is_strict : strict raw_xml_paged.
+Proof. exact strict_raw_xml_paged. Qed.
+Theorem C07_validate_is_strict : forall fuel ps, strict (validate_loop fuel ps).
+Proof. exact strict_validate_loop. Qed.
+
 Print Assumptions C07_is_crc32c.
 Print Assumptions C07_check_value.
 Print Assumptions C07_detect_3bits.
@@ -72,3 +111,10 @@ Print Assumptions C07_detect_checksum_field.
 Print Assumptions C07_burst_straddle_refuted.
 Print Assumptions C07_burst32_msb_refuted.
 Print Assumptions C07_never_serves_unvalidated.
+Print Assumptions C07_served_bytes_are_validated.
+Print Assumptions C07_alteration.
+Print Assumptions C07_raw_iteration_is_strict.
+Print Assumptions C07_blob_read_is_strict.
+Print Assumptions C07_open_is_strict.
+Print Assumptions C07_raw_xml_is_strict.
+Print Assumptions C07_validate_is_strict.
